@@ -33,6 +33,9 @@ type Env struct {
 	pkg     *types.Package
 	depth   int
 	preNAlloc *Term // allocation counter before the call/function (for fresh())
+	inOld   bool
+	nowEnv  *Env
+	pc      *Term // path condition at the site (ghost sites)
 	hint    types.Type // expected type of an ite whose branches are untyped constants (tail position of a spec func)
 }
 
@@ -138,6 +141,11 @@ func (fx *FnCtx) resolveType(name string, pkg *types.Package) types.Type {
 }
 
 func (fx *FnCtx) lookupSpecFunc(env *Env, name string) *SpecFunc {
+	if fx.root != nil && fx.root.top != nil && fx.root.top.fc != nil {
+		if sf, ok := fx.root.top.fc.LocalSpecs[name]; ok {
+			return sf
+		}
+	}
 	if env.pkg != nil {
 		if sf, ok := fx.V.cs.Specs[env.pkg.Path()+"."+name]; ok {
 			return sf
@@ -765,10 +773,43 @@ func (fx *FnCtx) evalCall(env *Env, x *SCall) SV {
 	intSV := func(t *Term) SV { return SV{V: Value{T: types.Typ[types.Int], L: []*Term{t}}} }
 	switch x.Fun {
 	case "old":
+		if env.inOld {
+			// old() inside old(): already evaluating in the pre-state
+			return fx.evalSpec(env, x.Args[0])
+		}
 		if env.oldEnv == nil {
 			fx.specFail(x, "old() is not available here")
 		}
-		return fx.evalSpec(env.oldEnv, x.Args[0])
+		o := *env.oldEnv
+		o.inOld = true
+		o.nowEnv = env
+		// bound variables of enclosing quantifiers stay visible
+		o.vars = map[string]SV{}
+		for k, v := range env.oldEnv.vars {
+			o.vars[k] = v
+		}
+		for k, v := range env.vars {
+			if _, shadow := o.vars[k]; !shadow {
+				o.vars[k] = v
+			}
+		}
+		return fx.evalSpec(&o, x.Args[0])
+	case "now":
+		// inside old(): evaluate the argument in the current state again (e.g. an index computed from current values)
+		if env.nowEnv == nil {
+			return fx.evalSpec(env, x.Args[0])
+		}
+		n := *env.nowEnv
+		n.vars = map[string]SV{}
+		for k, v := range env.nowEnv.vars {
+			n.vars[k] = v
+		}
+		for k, v := range env.vars {
+			if _, shadow := n.vars[k]; !shadow {
+				n.vars[k] = v
+			}
+		}
+		return fx.evalSpec(&n, x.Args[0])
 	case "len", "cap":
 		a := fx.evalSpec(env, x.Args[0])
 		switch u := a.V.T.Underlying().(type) {
@@ -916,6 +957,13 @@ func (fx *FnCtx) evalCall(env *Env, x *SCall) SV {
 			out.L = append(out.L, f.App(argTerms...))
 		}
 		return SV{V: out}
+	}
+	if sf.EntryState && fx.root.entry != nil {
+		sub.st = fx.root.entry
+	}
+	if sf.Local {
+		top := fx.root.top
+		sub.lookup = func(name string) (SV, bool) { return top.lookupEntryVar(name, fx.root.entry) }
 	}
 	if sf.Opaque && fx.root.boundedK == 0 {
 		return fx.opaqueCall(x, sf, sub, spkg, rtyp, argTerms, argSorts)
